@@ -792,7 +792,7 @@ class Smd:
         return s.replace('//', '/_')
 
     def _mat(self, rng):
-        s = rstr(rng, [c for c in IDENT if c != '.'] + ['/', ' ', '-'], 12, 1).strip().rstrip('/\\').replace('//', '/_')
+        s = rstr(rng, [c for c in IDENT if c != '.'] + ['/', ' ', '-'], 12, 1).replace('//', '/_').strip().rstrip('\\/ \t')
         if not s or s in ('end',) or s.startswith(('version',)):
             s = 'mat'
         return s
